@@ -56,7 +56,7 @@ def objectsOf (f : Facade) (d : Dyn) : List (String × Obj) :=
     (l.zipIdx.flatMap fun (s, i) => [(pre ++ ":" ++ hexOfStr s.key, mk i), (pre ++ ":" ++ hexOfStr s.key ++ "/state", mks i)])
   [("facade", .facade), ("heater", .heater), ("watercare", .watercare), ("reminders", .reminders), ("keypad", .keypad),
    ("error_sensor", .errorSensor), ("eco", .eco), ("eco/state", .ecoState)] ++
-  sw "pump" .pump .pumpState f.pumps ++ sw "blower" .blower .blowerState f.blowers ++ sw "light" .light .lightState f.lights ++
+  f.pumps.zipIdx.map (fun (s, i) => ("pump:" ++ hexOfStr s.key, Obj.pump i)) ++ sw "blower" .blower .blowerState f.blowers ++ sw "light" .light .lightState f.lights ++
   (List.range f.sensors.length).map (fun i => (s!"sensor:{i}", Obj.sensor i)) ++
   (List.range f.binarySensors.length).map (fun i => (s!"bsensor:{i}", Obj.binarySensor i)) ++
   (match f.ident.flavor, d.rems with
@@ -65,8 +65,13 @@ def objectsOf (f : Facade) (d : Dyn) : List (String × Obj) :=
 
 def dump (f : Facade) (d : Dyn) (keys : List String) : String :=
   let ms := memsFor keys
-  ";".intercalate ((objectsOf f d).flatMap fun (on, o) =>
-    ms.filterMap fun (mn, m) => (evalObj f d o m).map fun r => on ++ "." ++ mn ++ "=" ++ showRes r)
+  let pub := (objectsOf f d).flatMap fun (on, o) =>
+    ms.filterMap fun (mn, m) => (evalObj f d o m).map fun r => on ++ "." ++ mn ++ "=" ++ showRes r
+  -- the threaded facade's PRIVATE reminders manager: modelled, compared, not part of the public surface
+  let priv := match f.ident.flavor with
+    | .sync => ms.filterMap fun (mn, m) => (remindersMember f.ident d.rems m).map fun r => "_reminders." ++ mn ++ "=" ++ showRes r
+    | .async => []
+  ";".intercalate (pub ++ priv)
 
 structure St where
   blocks : List (String × Block) := []
